@@ -29,7 +29,7 @@ RULE = ("configurations = (messages per queueing thread for 1..3 threads on 1..2
         "pick at a blocking point - enumerated exhaustively; random schedules with up to 8 deviations. "
         "Non-trivial: >= 1 deviation; distinct by (configuration, schedule).")
 ASSUME = ["queueing order = observed order of Queue.put() on the connection's message queue",
-          "preemption granularity: source line and Python-level call; switches inside C code are not modelled",
+          "preemption granularity: source line and Python-level call, plus the inside of the virtual send() (which keeps the caller's buffer exported meanwhile, as the system call does); other switches inside C code are not modelled",
           "soft write errors leave the socket writable (the node retries in its next loop turn)",
           "the expected encoding of each message is computed with the library encoder before queueing (C02's subject)"]
 
@@ -104,7 +104,7 @@ def run_schedule(cfg, decisions=None, rng=None, p=0.0, maxr=0):
                 k += 1
             per_thread.append(mine)
         ex = sched.Explorer(decisions, rng=rng, p_switch=p, max_random_switches=maxr)
-        sched.attach(w.k, ex)
+        sched.attach(w.k, ex, io_points=True)
 
         def queuer(mine, target):
             for m in mine:
